@@ -4,7 +4,7 @@ pub mod server;
 pub mod term;
 pub mod value;
 
-pub use server::{harness, import_event, note, serve, stash, stub_enter, stub_ret, Driver, Export, Item};
+pub use server::{harness, import_event, note, phase_mark, serve, stash, stub_enter, stub_ret, Driver, Export, Item};
 pub use term::Term;
 pub use value::{release_keep, Build, Show};
 
